@@ -385,12 +385,9 @@ impl LuaEngine {
                 } else if n.is_infinite() {
                     let inf_str = if n.is_sign_positive() { "inf" } else { "-inf" };
                     RespFrame::BulkString(Some(Arc::new(inf_str.as_bytes().to_vec())))
-                } else if n.fract() == 0.0 && n >= i64::MIN as f64 && n <= i64::MAX as f64 {
-                    RespFrame::Integer(n as i64)
                 } else {
-                    let formatted = format!("{:.17}", n);
-                    let trimmed = formatted.trim_end_matches('0').trim_end_matches('.');
-                    RespFrame::BulkString(Some(Arc::new(trimmed.as_bytes().to_vec())))
+                    // A Lua number becomes an integer reply, the fractional part is dropped
+                    RespFrame::Integer(n as i64)
                 }
             }
             LuaValue::String(s) => {
